@@ -142,6 +142,8 @@ func (p *Population) StoreInnovation(innovation Innovation) {
 }
 
 func (p *Population) Innovations() []Innovation {
+	p.mutex.Lock()
+	defer p.mutex.Unlock()
 	if verifOn {
 		verifEmit("access:read-registry", p)
 	}
